@@ -12,6 +12,15 @@ TRIAGE = os.path.join(VERIF, "mutants", "sweep_triage.json")
 OUT = os.path.join(VERIF, "mutants", "SWEEP.md")
 
 
+_SRC = {}
+
+
+def _src(f):
+    if f not in _SRC:
+        _SRC[f] = open(os.path.join(os.environ.get("VERIF_REPO", "/repo"), f)).read().split("\n")
+    return _SRC[f]
+
+
 def main():
     recs = {}
     for l in open(SRC):
@@ -19,6 +28,12 @@ def main():
             r = json.loads(l)
         except Exception:
             continue
+        try:
+            cur = _src(r["file"])[r["line"] - 1].strip()
+        except Exception:
+            cur = None
+        if cur != r["old"]:
+            continue               # recorded against an earlier revision of the file (lines moved since)
         recs[r["id"]] = r          # a later run of the same mutant replaces the earlier one
     triage = json.load(open(TRIAGE)) if os.path.exists(TRIAGE) else {}
     per = collections.defaultdict(collections.Counter)
